@@ -5,7 +5,7 @@ needs only the pre-fault bytes and the fault list. `fired` is decided by compari
 and after, never by configuration."""
 import re
 
-KINDS = ["eof", "flip", "overwrite", "zero", "drop", "dup", "swap", "splice", "torn", "badutf8", "boundary"]
+KINDS = ["eof", "flip", "overwrite", "zero", "drop", "dup", "swap", "splice", "torn", "badutf8", "boundary", "valuetok"]
 
 
 def records(data: bytes, fmt: str):
@@ -86,6 +86,18 @@ def gen_fault(rng, data: bytes, fmt: str, kinds, donor: bytes = b""):
   if kind == "badutf8":
     at = rng.randrange(max(1, n))
     return ["badutf8", at, rng.choice([[0xc3], [0xe2, 0x82], [0xff], [0xc0, 0x80], [0xed, 0xa0, 0x80], [0xf4, 0x90, 0x80, 0x80], [0x80]])]
+  if kind == "valuetok":
+    # lose or repeat one blank-separated token inside a quoted value / a line (a short or long write of one field)
+    toks = list(re.finditer(rb"(?<=[\" \t])[^\"\s<>=]+(?=[\" \t\r\n])", data))
+    if not toks:
+      return ["eof", n]
+    m_ = rng.choice(toks)
+    a, b = m_.start(), m_.end()
+    if data[b:b + 1] in (b" ", b"\t"):
+      b += 1  # the separator after the token goes with it
+    elif data[a - 1:a] in (b" ", b"\t"):
+      a -= 1  # last token of the value: the separator before it goes with it
+    return [rng.choice(["drop", "dup"]), "t", [a, b], [m_.start(), m_.end()]]
   if kind == "boundary":
     nums = list(re.finditer(rb"\d+", data))
     if not nums:
